@@ -797,7 +797,7 @@ func c04Run(r *Run) {
 						return false
 					case *ast.IfStmt:
 						// the signed-number re-split branch is judged by C04-SIGNED, not as an ordinary operand
-						if _, signed := condToks(x.Cond); signed {
+						if _, signed := condToks(x.Cond); signed || c04SignedCond(ppkg, x) {
 							ast.Inspect(x.Body, func(m ast.Node) bool {
 								if c, ok := m.(*ast.CallExpr); ok {
 									if cal := resolve(c); cal != nil && cal.Name() == "next" {
@@ -1553,16 +1553,7 @@ func c04Signed(r *Run, ppkg *packages.Package, lv *c04Level, g *opGuard, mul *c0
 		if !ok {
 			return true
 		}
-		isSigned := false
-		ast.Inspect(ifs.Cond, func(m ast.Node) bool {
-			if c, ok := m.(*ast.CallExpr); ok {
-				if cal, ok := calleeOf(info, c).(*types.Func); ok && cal.Name() == "isSignedNumberToken" {
-					isSigned = true
-				}
-			}
-			return true
-		})
-		if !isSigned {
+		if !c04SignedCond(ppkg, ifs) {
 			return true
 		}
 		found = true
@@ -2006,4 +1997,70 @@ func c04CastTokens(r *Run, ppkg, tpkg *packages.Package) {
 			r.bad(key, fd.Pos(), fmt.Sprintf("the cast recogniser accepts value tokens as a type name (%s): a parenthesised literal such as (2) or (\"x\") is parsed as a cast of what follows, so `$a + (2) * 3` no longer groups as written", strings.Join(bad, ", ")))
 		}
 	}
+}
+
+// c04SignedPredicate: the callee is the signed-number predicate (isSignedNumberToken) or a helper of the
+// parser package that takes a token and consults it first (splitSignedNumber(t) (sign, digits, ok)).
+func c04SignedPredicate(p *packages.Package, f *types.Func, depth int) bool {
+	if f == nil || f.Pkg() != p.Types || depth > 2 {
+		return false
+	}
+	if f.Name() == "isSignedNumberToken" {
+		return true
+	}
+	fd := declOf(p, f)
+	if fd == nil || fd.Body == nil || fd.Recv != nil {
+		return false
+	}
+	sig := f.Type().(*types.Signature)
+	if sig.Params().Len() != 1 || !isNamed(sig.Params().At(0).Type(), modPath+"/lexer", "Token") {
+		return false
+	}
+	found := false
+	ast.Inspect(fd.Body, func(n ast.Node) bool {
+		if c, ok := n.(*ast.CallExpr); ok {
+			if cal, ok := calleeOf(p.TypesInfo, c).(*types.Func); ok && cal != f && c04SignedPredicate(p, cal, depth+1) {
+				found = true
+			}
+		}
+		return !found
+	})
+	return found
+}
+
+// c04SignedCond: the condition of an if (with its init statement) tests the signed-number predicate,
+// directly or through the ok result of a helper assigned in the init.
+func c04SignedCond(p *packages.Package, ifs *ast.IfStmt) bool {
+	info := p.TypesInfo
+	signed := false
+	ast.Inspect(ifs.Cond, func(m ast.Node) bool {
+		if c, ok := m.(*ast.CallExpr); ok {
+			if cal, ok := calleeOf(info, c).(*types.Func); ok && c04SignedPredicate(p, cal, 0) {
+				signed = true
+			}
+		}
+		return true
+	})
+	if signed || ifs.Init == nil {
+		return signed
+	}
+	as, ok := ifs.Init.(*ast.AssignStmt)
+	if !ok || len(as.Rhs) != 1 {
+		return false
+	}
+	c, ok := ast.Unparen(as.Rhs[0]).(*ast.CallExpr)
+	if !ok {
+		return false
+	}
+	cal, _ := calleeOf(info, c).(*types.Func)
+	if !c04SignedPredicate(p, cal, 0) {
+		return false
+	}
+	// the condition is the last (bool) result
+	if id, ok := ast.Unparen(ifs.Cond).(*ast.Ident); ok {
+		if lid, ok := as.Lhs[len(as.Lhs)-1].(*ast.Ident); ok && info.Defs[lid] != nil && info.Uses[id] == info.Defs[lid] {
+			return true
+		}
+	}
+	return false
 }
